@@ -1557,6 +1557,15 @@ def _matmul(I, a, k):
             return SArr(np.result_type(M.dtype, y.dtype), (M.shape[0], y.shape[1]),
                         lambda idx: (lambda r, j: z3.Sum([term(float(M[rr, kk])) * to_real(ys((z3.IntVal(kk), j))) for rr in [r] for kk in range(M.shape[1])]))(A.conc(idx[0]), idx[1])
                         if A.conc(idx[0]) is not None else _matrow(M, ys, idx))
+    if isinstance(a[0], np.ndarray) and a[0].ndim == 1 and a[0].dtype.kind in "fiu" and a[0].shape[0] <= 16:
+        # a short concrete vector times a symbolic matrix with as many rows: exact linear combination of its rows
+        vec = a[0]
+        y = A.as_sarr(a[1])
+        if y.ndim == 2 and A.conc(y.shape[0]) == vec.shape[0]:
+            dt = np.result_type(vec.dtype, y.dtype if y.dtype.kind != "b" else np.dtype("int64"))
+            ys = A.cast_fn(y.dtype, dt, y.snapshot())
+            cf = (lambda v: z3.IntVal(int(v))) if dt.kind in "iu" else (lambda v: term(float(v)))
+            return SArr(dt, (y.shape[1],), lambda idx: z3.Sum([cf(vec[kk]) * ys((z3.IntVal(kk), idx[0])) for kk in range(vec.shape[0])]))
     x, y = A.as_sarr(a[0]), A.as_sarr(a[1])
     if x.ndim == 1 and y.ndim == 2:
         A.oblige("matmul.inner", A.T(x.shape[0]) == A.T(y.shape[0]), "matmul inner dimensions")
